@@ -4,7 +4,6 @@ package harness
 
 import (
 	"bytes"
-	"context"
 	"fmt"
 	"io"
 	"testing"
@@ -13,7 +12,6 @@ import (
 	"github.com/ipfs/go-cid"
 	"github.com/ipfs/go-unixfsnode"
 	"github.com/ipfs/go-unixfsnode/file"
-	"github.com/ipld/go-ipld-prime"
 	"github.com/ipld/go-ipld-prime/datamodel"
 	cidlink "github.com/ipld/go-ipld-prime/linking/cid"
 	"pgregory.net/rapid"
@@ -34,7 +32,7 @@ func c01Open(st *Store, root cid.Cid, how string) (datamodel.Node, error) {
 		if err != nil {
 			return nil, err
 		}
-		return file.NewUnixFSFile(context.Background(), n, ls)
+		return file.NewUnixFSFile(sessionCtx, n, ls)
 	case "Reify":
 		return loadReified(ls, root, "unixfs")
 	case "unixfs-preload":
@@ -45,10 +43,10 @@ func c01Open(st *Store, root cid.Cid, how string) (datamodel.Node, error) {
 		if err != nil {
 			return nil, err
 		}
-		return file.NewUnixFSFile(context.Background(), rn, ls)
+		return file.NewUnixFSFile(sessionCtx, rn, ls)
 	default:
 		ls.NodeReifier = unixfsnode.Reify
-		return ls.Load(ipld.LinkContext{}, cidlink.Link{Cid: root}, protoForCid(root))
+		return ls.Load(lcS, cidlink.Link{Cid: root}, protoForCid(root))
 	}
 }
 
@@ -272,6 +270,8 @@ func TestC01_P_OwnBuilder(t *testing.T) {
 		var root cid.Cid
 		var err error
 		must(t, "BuildUnixFSFile", func() { root, _, err = buildFile(st, data, ck.Name, w) })
+		// half of the stores serve only loads that still carry the context the file was opened with
+		st.RequireSession = rapid.Bool().Draw(t, "sessionStore")
 		if err != nil {
 			t.Fatalf("C01: build: %v", err)
 		}
@@ -459,5 +459,35 @@ func TestC01_R_Over4GiB(t *testing.T) {
 	tail, err := io.ReadAll(rs)
 	if err != nil || len(tail) != 1<<20+5 {
 		t.Fatalf("C01 >4GiB: tail read %d bytes, err %v", len(tail), err)
+	}
+}
+
+// Whole-value reads (AsBytes) of files in the tens of MiB up to beyond 128 MiB with the default chunker and width (three
+// levels from 43.5 MiB on): a reader that sizes or grows its buffer differently above some threshold has to hand out the same
+// bytes. The streamed read of the smaller file is checked as well.
+func TestC01_R_AsBytesOfLargeFiles(t *testing.T) {
+	for i, n := range []int{64<<20 + 513, 72<<20 + 11, 136<<20 + 1} {
+		data := lcgBytes(n, byte(21+i), 1<<20+7)
+		st := NewStore()
+		root, _, err := buildFile(st, data, "", 174)
+		if err != nil {
+			t.Fatalf("C01 large AsBytes: build %d bytes: %v", n, err)
+		}
+		if i == 1 {
+			if err := c01CheckRead(st, root, data, "Reify", 1<<20); err != nil {
+				t.Fatalf("C01 large file (%d bytes): %v", n, err)
+			}
+			continue
+		}
+		for _, how := range []string{"Reify", "NewUnixFSFile"} {
+			rn, err := c01Open(st, root, how)
+			if err != nil {
+				t.Fatal(err)
+			}
+			got, err := rn.AsBytes()
+			if err != nil || !bytes.Equal(got, data) {
+				t.Fatalf("C01 large file (%d bytes) via %s: AsBytes returned %d bytes (err %v), first difference at %d", n, how, len(got), err, firstDiff(got, data))
+			}
+		}
 	}
 }
